@@ -170,10 +170,23 @@ func (fl *File) Position(idx Idx) *Position {
 	position.Column = offset - last
 
 	if fl.sm != nil {
-		if f, _, l, c, ok := fl.sm.Source(position.Line, position.Column); ok {
+		if f, l, c, ok := fl.original(position.Line, position.Column); ok {
 			position.Filename, position.Line, position.Column = f, l, c
 		}
 	}
 
 	return position
+}
+
+// original looks a position up in the source map. A map whose mappings point outside its
+// sources or names ({"sources":[],"mappings":"AAAC"}) makes the consumer panic with an index out
+// of range: such a position stays as it is.
+func (fl *File) original(line, column int) (filename string, l, c int, ok bool) { //nolint:nonamedreturns
+	defer func() {
+		if recover() != nil {
+			ok = false
+		}
+	}()
+	filename, _, l, c, ok = fl.sm.Source(line, column)
+	return filename, l, c, ok
 }
